@@ -43,8 +43,12 @@ Definition check_kern (prop : Z) (inp impl : sx) : sx :=
           if (proto =? 1) && (method =? 2) && sack_unavailable then
             (* method sack against a target that cannot do SACK: fails as not supported *)
             (if (status =? 1) && (notsup =? 1) then verdict V_OK cls [] (L []) else verdict V_SPECFAIL cls [13; 2] (L []))
-          else if (status =? 0) && all2k (predicted pa first last) hops then verdict V_OK cls [] (L [])
-          else verdict V_SPECFAIL cls [13; 1] (L (map (fun e => match e with (t, ip, d) => L [A t; A (match ip with Some a => a | None => 0 end); of_bool d] end) (predicted pa first last)))
+          else
+          (* port state 3: the target silently drops TCP segments to this port (connect times out: SACK unavailable, C20);
+             prefer_sack falls back to SYN, whose probes die at the target as well *)
+          let want := if (proto =? 1) && (pstate =? 3) then predicted_filtered pa first last else predicted pa first last in
+          if (status =? 0) && all2k want hops then verdict V_OK cls [] (L [])
+          else verdict V_SPECFAIL cls [13; 1] (L (map (fun e => match e with (t, ip, d) => L [A t; A (match ip with Some a => a | None => 0 end); of_bool d] end) want))
       | None => badcase
       end
   | _, _ => badcase
